@@ -410,12 +410,19 @@ def send_tx(
         if total_amount >= amount_to_send:
             break
 
-    recipient_scriptpubkey = bits.script.scriptpubkey(recipient_addr)
-    change_scriptpubkey = (
-        bits.script.scriptpubkey(change_addr)
-        if change_addr
-        else bits.script.scriptpubkey(sender_addr)
-    )
+    def to_scriptpubkey(addr: bytes) -> bytes:
+        # same dispatch as for sender_addr above: pubkey, base58check or segwit
+        # address, otherwise the data is taken as a raw scriptpubkey
+        if (
+            bits.is_point(addr)
+            or bits.base58.is_base58check(addr)
+            or bits.is_segwit_addr(addr)
+        ):
+            return bits.script.scriptpubkey(addr)
+        return addr
+
+    recipient_scriptpubkey = to_scriptpubkey(recipient_addr)
+    change_scriptpubkey = to_scriptpubkey(change_addr if change_addr else sender_addr)
     txouts = [
         txout(int(amount_to_send - miner_fee), recipient_scriptpubkey),
     ]
